@@ -75,12 +75,13 @@ type fetchCase struct {
 	bsReq   int    // 0: none, 1: BODY, 2: BODYSTRUCTURE requested
 	seq     uint32 // 0: position in the batch + 1
 	collect bool   // read through Collect() (FetchMessageBuffer) instead of the streaming Next()
+	store   bool   // the FETCH responses answer a STORE command (Session.Store gets the same FetchWriter)
 	items   []fitem
 	label   string
 }
 
 func (cs *fetchCase) groupKey() string {
-	return fmt.Sprintf("%v/%d/%v/%v", cs.uidCmd, cs.bsReq, cs.collect, cs.seq != 0)
+	return fmt.Sprintf("%v/%d/%v/%v/%v", cs.uidCmd, cs.bsReq, cs.collect, cs.seq != 0, cs.store)
 }
 
 func (cs *fetchCase) describe() string {
@@ -88,7 +89,11 @@ func (cs *fetchCase) describe() string {
 	if cs.uidCmd {
 		sb.WriteString("UID ")
 	}
-	sb.WriteString("FETCH")
+	if cs.store {
+		sb.WriteString("STORE")
+	} else {
+		sb.WriteString("FETCH")
+	}
 	switch cs.bsReq {
 	case 1:
 		sb.WriteString(" (request BODY)")
@@ -430,7 +435,7 @@ func execFetch(cn *conn, cases []*fetchCase) []outcome {
 		}
 	}
 	var writeErr error
-	cn.stub.OnFetch = func(w *imapserver.FetchWriter, numSet imap.NumSet, o *imap.FetchOptions) error {
+	writeAll := func(w *imapserver.FetchWriter) error {
 		for i := range cases {
 			rw := w.CreateMessage(seqs[i])
 			for _, it := range items[i] {
@@ -443,11 +448,20 @@ func execFetch(cn *conn, cases []*fetchCase) []outcome {
 		}
 		return nil
 	}
+	cn.stub.OnFetch = func(w *imapserver.FetchWriter, numSet imap.NumSet, o *imap.FetchOptions) error { return writeAll(w) }
+	cn.stub.OnStore = func(w *imapserver.FetchWriter, numSet imap.NumSet, f *imap.StoreFlags, o *imap.StoreOptions) error {
+		return writeAll(w)
+	}
 	var set imap.NumSet = seqSet
 	if first.uidCmd {
 		set = uidSet
 	}
-	cmd := cn.c.Fetch(set, opts)
+	var cmd *imapclient.FetchCommand
+	if first.store {
+		cmd = cn.c.Store(set, &imap.StoreFlags{Op: imap.StoreFlagsAdd, Flags: []imap.Flag{imap.FlagSeen}}, nil)
+	} else {
+		cmd = cn.c.Fetch(set, opts)
+	}
 	var got [][]kv
 	var cmdErr error
 	if first.collect {
@@ -467,6 +481,7 @@ func execFetch(cn *conn, cases []*fetchCase) []outcome {
 		cmdErr = cmd.Close()
 	}
 	cn.stub.OnFetch = nil
+	cn.stub.OnStore = nil
 	dead := false
 	if cmdErr != nil {
 		var ie *imap.Error
